@@ -482,6 +482,9 @@ pub fn run(tier: Tier, seed: u64) -> i32 {
     if !run.failed() {
         run.random("library", tier.pick(30_000, 1_500_000), 700, case_lib);
     }
+    if tier == Tier::Thorough && !run.failed() {
+        run.fuzz("libfuzzer", 1_500_000, 8, 600, fuzz_case);
+    }
     let code = run.finish();
     cleanup_scratch();
     code
@@ -525,4 +528,9 @@ pub fn replay(doc: &serde_json::Value) -> i32 {
         Outcome::Broken(_) => 2,
         _ => 0,
     }
+}
+
+/// entry point of the libFuzzer target: the in-process (library) part
+pub fn fuzz_case(data: &[u8]) -> Outcome {
+    case_lib(data)
 }
